@@ -74,6 +74,14 @@ class Collector:
         return d
 
 
+def alias_collision(schema) -> bool:
+    """two packages of the schema get the same import alias (`alpha.beta` and `alpha_beta` both become __alpha_beta__):
+    a recorded defect of the alias scheme (known finding, reproduced deterministically by the edge schema
+    alias-collision-packages and systematically by the C13 schemas); every failure of such a schema is attributed to it"""
+    pk = [p for p in schema.packages() if p]
+    return any(a != b and a.replace(".", "_") == b.replace(".", "_") for a in pk for b in pk)
+
+
 def log(*a) -> None:
     print(*a, file=sys.stderr, flush=True)
 
@@ -490,7 +498,9 @@ def check_C03(seed: int, n: int) -> dict:
             seen = set()
             for m, detail in res["fails"]:
                 key = "C03:" + m
-                if "builtin-name-shadowed" in m:
+                if alias_collision(schema):
+                    key = "C03:alias-collision:underscore-packages"
+                elif "builtin-name-shadowed" in m:
                     pass  # one root cause, whichever schema triggered it
                 elif tag.startswith("edge:") and not m.startswith(("import-error", "plugin-crash")):
                     key += ":" + tag[5:]
@@ -970,7 +980,7 @@ def check_C18(seed: int, n: int) -> dict:
                                 client_streaming=("none", False, True)[i % 3])
             jobs.append(("random", (sc.roots_only() or sc) if i % 2 == 1 else sc, active, s ^ 0x5EED))
         for tag, sc in gen.edge_schemas():
-            if tag in ("feature-cover", "wkt-rpc", "typing-name-message", "builtin-shadow", "wkt-in-map", "cross-file-roots-only", "scale"):
+            if tag in ("feature-cover", "wkt-rpc", "typing-name-message", "builtin-shadow", "wkt-in-map", "cross-file-roots-only", "scale", "alias-collision-packages"):
                 jobs.append(("edge:" + tag, sc, active, seed))
         results = parallel(jobs, _c18_job)
         for job, res in zip(jobs, results):
@@ -989,6 +999,8 @@ def check_C18(seed: int, n: int) -> dict:
             seen = set()
             for m, detail in res["fails"]:
                 key = "C18:" + m + ((":" + tag[5:]) if (tag.startswith("edge:") and "builtin-name-shadowed" not in m) else "")
+                if alias_collision(schema):
+                    key = "C18:alias-collision:underscore-packages"
                 if key in seen:
                     continue
                 seen.add(key)
@@ -1295,7 +1307,7 @@ def check_C11(seed: int, n: int) -> dict:
                 continue
             nserv += k
             jobs.append(("random", schema, s ^ 0xC11))
-        jobs += [("edge:" + tag, sc, seed ^ 0xC11) for tag, sc in gen.edge_schemas() if tag in ("feature-cover", "wkt-rpc", "scale")]
+        jobs += [("edge:" + tag, sc, seed ^ 0xC11) for tag, sc in gen.edge_schemas() if tag in ("feature-cover", "wkt-rpc", "scale", "alias-collision-packages")]
         # "every generated service": also the stubs / server bases generated under the other plugin options (the
         # deterministic service schemas under every configuration, the first random ones under the pydantic one)
         active = [c for c in CONFIGS if pydantic_available() or not c[0].endswith("pydantic")]
@@ -1327,6 +1339,8 @@ def check_C11(seed: int, n: int) -> dict:
             seen = set()
             for m, detail in res["fails"]:
                 key = "C11:" + m
+                if alias_collision(schema):
+                    key = "C11:alias-collision:underscore-packages"
                 if key in seen:
                     continue
                 seen.add(key)
